@@ -30,6 +30,9 @@ pub enum Act {
     OwnProposal,
     /// T proposes an Update that also changes its signature key; a later peer commit carries it
     OwnUpdateNewIdentity,
+    /// P0 sends an external-PSK proposal that T (and everybody) caches; a later own commit of T
+    /// carries it by reference, which makes the committer consult its PSK store
+    PeerPskProposal,
 }
 
 #[derive(Clone)]
@@ -367,6 +370,27 @@ impl M {
                     Err(_) => Step::Stop,
                 }
             }
+            Act::PeerPskProposal => {
+                if !s.w.g(T).get_cached_proposals().is_empty() {
+                    return Step::Stop;
+                }
+                let msg = match s.w.propose(0, &Prop::ExternalPsk(0)) {
+                    Ok((m, _)) => m,
+                    Err(_) => return Step::Stop,
+                };
+                let m2 = msg.clone();
+                if !fault_enum(&s.w, T, "process-proposal(external-psk)", true, self.pairs, &move |w: &mut World| w.process(T, &m2).map(|_| ()), &yes, ctx) {
+                    ctx.violation("fault-free-op-failed|process-proposal(external-psk)", "T rejects an honest proposal without any fault");
+                    return Step::Stop;
+                }
+                for p in s.w.members() {
+                    if p != 0 {
+                        let _ = s.w.process(p, &msg);
+                    }
+                }
+                ctx.goal("cached-psk-proposal");
+                Step::Continue
+            }
             Act::OwnProposal => {
                 let label = "propose-resumption-psk";
                 let e = s.w.g(T).current_epoch();
@@ -421,6 +445,7 @@ impl Model for M {
             Act::OwnCommit("resumption-psk"),
             Act::OwnCommit("external-psk"),
             Act::Write,
+            Act::PeerPskProposal,
         ];
         if !s.late.is_empty() {
             v.push(Act::LateMsg);
@@ -476,14 +501,14 @@ pub fn meta(tier: &str) -> Meta {
     let ms = models(tier);
     Meta {
         level: "fault_enumeration",
-        rule: "a target member lives through every history (to the depth bound) over {peer commit: empty/add/remove/external-psk/resumption-psk, own commit of 4 kinds + apply, write_to_storage, delivery of a kept application message of an earlier epoch, reload, resumption-psk proposal}; for every operation the member (or a joiner) performs, every storage call it makes is failed once (and in pairs: first attempt, retry) on forks; a case = (history, operation, failing call set); non-trivial = the injected call was reached".into(),
+        rule: "a target member lives through every history (to the depth bound) over {peer commit: empty/add/remove/external-psk/resumption-psk, own commit of 4 kinds + apply, write_to_storage, delivery of a kept application message of an earlier epoch, reload, resumption-psk proposal, a peer's external-PSK proposal that stays cached for a later own commit}; for every operation the member (or a joiner) performs, every storage call it makes is failed once (and in pairs: first attempt, retry) on forks; a case = (history, operation, failing call set); non-trivial = the injected call was reached".into(),
         assumptions: {
             let mut a = default_assumptions();
             a.push("faults are injected at the GroupStateStorage / KeyPackageStorage / PreSharedKeyStorage trait seam of a harness store that implements the documented semantics; a fault means: the call has no effect and returns an error".into());
             a
         },
         bounds: bounds_json(&[("runs", json!(ms.iter().map(|m| json!({"config": m.cfg.label(), "depth": m.depth, "pairs": m.pairs})).collect::<Vec<_>>()))]),
-        required_goals: vec!["write", "late-message-of-prior-epoch", "reload"],
+        required_goals: vec!["write", "late-message-of-prior-epoch", "reload", "cached-psk-proposal"],
         min_outcomes: 6,
         workers: 16,
     }
